@@ -105,8 +105,9 @@ def run_writer(pm: ProgramModel, cls_name: str, model: AObj, vfs: Optional[VFS] 
 
 
 def run_reader(pm: ProgramModel, cls_name: str, vfs: VFS, path: str = PATH,
-               setup: Optional[Callable[..., None]] = None) -> dict[str, Any]:
+               setup: Optional[Callable[..., None]] = None, set_order: str = "asc") -> dict[str, Any]:
     it = new_interp(pm, vfs)
+    it.set_order = set_order
     if setup:
         setup(it, vfs)
     ci = pm.cls(cls_name)
